@@ -16,12 +16,13 @@ from mpmath import mp, mpf
 
 from vcheck import Ctx, f2hex, hex2f, ulp_nudge
 from tools.force.fruchterman_reingold import circle_circle_intersection_area
+from tools.force import fruchterman_reingold as FR
 from frame.geometry.geometry import Point
 
 mp.dps = 60
 
 LEVEL = "proof (real-number facts) + search (floating-point facts); partial"
-DRIVERS = ["drv_legal"]
+DRIVERS = ["drv_legal", "drv_place"]
 TRUSTED = [
     "Lean 4.33 kernel; Mathlib lemmas on Real.arccos / Real.sqrt / Real.sin; axioms ⊆ {propext, Classical.choice, Quot.sound}",
     "hand-written model FV/Model/Disc.lean — fidelity to tools/force/fruchterman_reingold.py checked by this correspondence run, not proved",
@@ -54,6 +55,34 @@ def exact_area(x1, y1, r1, x2, y2, r2):
     a = mp.acos((r1 * r1 + d * d - r2 * r2) / (2 * r1 * d))
     b = mp.acos((r2 * r2 + d * d - r1 * r1) / (2 * r2 * d))
     return r1 * r1 * a + r2 * r2 * b - d * r1 * mp.sin(a)
+
+
+def exact_area_atan2(x1, y1, r1, x2, y2, r2):
+    """the same lens area by an INDEPENDENT route (no acos, no sin): with x = (d² + r1² - r2²)/(2d) the distance from the
+    first centre to the chord and y = sqrt(Heron)/(2d) the half chord, the area is r1²·atan2(y, x) + r2²·atan2(y, d - x) - d·y."""
+    dx, dy = mpf(x1) - mpf(x2), mpf(y1) - mpf(y2)
+    d = mp.sqrt(dx * dx + dy * dy)
+    r1, r2 = mpf(r1), mpf(r2)
+    if d >= r1 + r2:
+        return mpf(0)
+    if d <= abs(r1 - r2):
+        return mp.pi * min(r1, r2) ** 2
+    g = r1 - r2   # exact differences first: d may be 1e-175 of the radii (60 digits would absorb it)
+    h = (r1 + r2 - d) * (d + g) * (d - g) * (d + r1 + r2)
+    y = mp.sqrt(h) / (2 * d)
+    x = (d * d + g * (r1 + r2)) / (2 * d)
+    return r1 * r1 * mp.atan2(y, x) + r2 * r2 * mp.atan2(y, d - x) - d * y
+
+
+def oracle(x1, y1, r1, x2, y2, r2):
+    """the exact lens area, computed twice (acos form and atan2 form); the two 60-digit values must agree to 1e-30·R²
+    (otherwise the oracle itself is broken: infrastructure error, not a verdict)."""
+    a = exact_area_atan2(x1, y1, r1, x2, y2, r2)
+    b = exact_area(x1, y1, r1, x2, y2, r2)
+    R2 = mpf(max(r1, r2)) ** 2
+    if abs(a - b) > mpf(10) ** -30 * R2:
+        raise RuntimeError(f"C17 oracles disagree: atan2 form {a}, acos form {b} for {(x1, y1, r1, x2, y2, r2)!r}")
+    return a
 
 
 def call(x1, y1, r1, x2, y2, r2):
@@ -95,9 +124,63 @@ def near_equal_case(rng, scale):
     return r1, r2, abs(d), k, kind
 
 
-def gen_case(rng):
+def gen_full_range(rng, fam):
+    """radii over the WHOLE range of positive doubles (5e-324 … 1.7e308, subnormals included): the larger radius at any
+    scale, the smaller one at most 1e150 (above 1.34e154 `min(r1, r2)**2` is not a double: outside the claim); centre
+    distances from 0 to the largest double."""
+    DMAX, DMIN = 1.7976931348623157e308, 5e-324
+    e = rng.choice([rng.uniform(-323.3, 308.25), rng.uniform(-323.3, -290), rng.uniform(290, 308.25), rng.uniform(150, 308.25)])
+    R = min(DMAX, max(DMIN, 10.0 ** min(e, 308.0) * rng.uniform(1.0, 10.0) if e < 308 else DMAX * rng.uniform(0.1, 1.0)))
+    style = rng.random()
+    if style < 0.35:
+        r = R * rng.choice([1.0, rng.uniform(0.05, 1.0), 1 - 10.0 ** rng.uniform(-12, -3)])
+    elif style < 0.6:
+        r = R * 10.0 ** rng.uniform(-17, -1)
+    else:
+        r = 10.0 ** rng.uniform(-323.3, min(150.0, math.log10(R)))
+    r = min(r, 1e150, R)
+    r = max(r, DMIN)
+    if fam == "equal" and R <= 1e150:
+        r = R
+    r1, r2 = (R, r) if rng.random() < 0.5 else (r, R)
+    k = rng.randint(-8, 8)
+    s_, g_ = r1 + r2, abs(r1 - r2)
+    if fam in ("ext_tangent",):
+        d = ulp_nudge(s_, k) if s_ < math.inf else DMAX
+    elif fam in ("int_tangent", "near_equal"):
+        d = ulp_nudge(g_, k) if g_ > 0 else ulp_nudge(0.0, abs(k))
+    elif fam == "equal":
+        d = rng.choice([0.0, min(DMAX, r1 * rng.uniform(0, 2)), r1 * 10.0 ** rng.uniform(-12, 0)])
+    elif fam == "concentric":
+        d = 0.0
+    elif fam == "nested":
+        d = g_ * rng.uniform(0, 1)
+    elif fam in ("far", "very_far"):
+        d = min(DMAX, s_ * rng.uniform(1.0, 50.0)) if s_ < DMAX / 50 else DMAX * rng.uniform(0.5, 1.0)
+    else:
+        d = min(DMAX, g_ + (min(s_, DMAX) - g_) * rng.uniform(0, 1))
+    d = min(abs(d), DMAX)
+    if not math.isfinite(d):
+        d = DMAX
+    # centres: one at the origin (offsets would overflow / be absorbed at these scales), axis-aligned or rotated
+    x1, y1 = 0.0, 0.0
+    p = rng.random()
+    if p < 0.5:
+        x2, y2 = d, 0.0
+    elif p < 0.7:
+        x2, y2 = 0.0, -d
+    else:
+        th = rng.uniform(0, 2 * math.pi)
+        x2, y2 = d * math.cos(th), d * math.sin(th)
+    return {"family": "full_range:" + fam, "k": k, "x1": f2hex(x1), "y1": f2hex(y1), "r1": f2hex(r1),
+            "x2": f2hex(x2), "y2": f2hex(y2), "r2": f2hex(r2)}
+
+
+def gen_case(rng, full_range: float = 0.0):
     fam = rng.choice(FAMILIES + ["ext_tangent", "int_tangent", "equal"])
     u = rng.random()
+    if rng.random() < full_range:
+        return gen_full_range(rng, fam)
     if u < 0.5:
         scale = 10.0 ** rng.uniform(-6, 6)
     elif u < 0.8:
@@ -183,7 +266,7 @@ def near_tangent(x1, y1, r1, x2, y2, r2) -> bool:
 
 def spec_on_impl(ctx: Ctx, inp, a, b) -> None:
     x1, y1, r1, x2, y2, r2 = args_of(inp)
-    R2 = max(r1, r2) ** 2
+    R2 = mpf(max(r1, r2)) ** 2          # exact (the square of a radius above 1.34e154 is not a double)
     size = 0
     if isinstance(a, str):
         ctx.spec_fail("total", inp, {"raises": a}, size)
@@ -194,8 +277,8 @@ def spec_on_impl(ctx: Ctx, inp, a, b) -> None:
     if not (a == a and abs(a) != math.inf):
         ctx.spec_fail("total", inp, {"not_finite": repr(a)}, size)
         return
-    if abs(a - b) > max(1e-6 * R2, FLOOR):
-        ctx.spec_fail("symmetric", inp, {"f(1,2)": a, "f(2,1)": b, "allowed": 1e-6 * R2}, size)
+    if abs(mpf(a) - mpf(b)) > max(mpf(1e-6) * R2, mpf(FLOOR)):
+        ctx.spec_fail("symmetric", inp, {"f(1,2)": a, "f(2,1)": b, "allowed": float(mpf(1e-6) * R2)}, size)
     cap = mp.pi * mpf(min(r1, r2)) ** 2
     if a < 0:
         ctx.spec_fail("bounds.nonneg", inp, {"area": a}, size)
@@ -204,14 +287,15 @@ def spec_on_impl(ctx: Ctx, inp, a, b) -> None:
     if max(r1, r2) < ACCURACY_FROM:
         ctx.count("accuracy-not-judged:radius<1e-150")
         return
-    ex = exact_area(x1, y1, r1, x2, y2, r2)
-    if abs(mpf(a) - ex) > mpf(1e-5) * mpf(r1 if r1 > r2 else r2) ** 2:
-        ctx.spec_fail("accurate", inp, {"area": a, "exact": float(ex), "allowed": 1e-5 * R2}, size)
+    ex = oracle(x1, y1, r1, x2, y2, r2)
+    if abs(mpf(a) - ex) > mpf(1e-5) * R2:
+        ctx.spec_fail("accurate", inp, {"area": a, "exact": mp.nstr(ex, 20), "allowed": mp.nstr(mpf(1e-5) * R2, 8)}, size)
 
 
 def compare(ctx: Ctx, inp, impl, model: str, op: str) -> None:
     x1, y1, r1, x2, y2, r2 = args_of(inp)
-    R2 = max(r1, r2) ** 2
+    R = max(r1, r2)
+    R2 = R * R if R < 1e154 else math.inf
     if isinstance(impl, str) or model.startswith("err:") or model == "bad-op":
         if impl != model:
             ctx.disagree(op, inp, impl if isinstance(impl, str) else f2hex(impl), model, 0)
@@ -238,11 +322,11 @@ def process(ctx: Ctx, cases) -> None:
         x1, y1, r1, x2, y2, r2 = args_of(inp)
         a = call(x1, y1, r1, x2, y2, r2)
         b = call(x2, y2, r2, x1, y1, r1)
-        nontrivial = inp["family"] not in ("far", "very_far")
+        nontrivial = inp["family"] not in ("far", "very_far", "full_range:far", "full_range:very_far")
         ctx.case("disc", tuple(inp[k] for k in ("x1", "y1", "r1", "x2", "y2", "r2")), nontrivial,
                  {"family": inp["family"], "r1": r1, "r2": r2, "d": math.hypot(x1 - x2, y1 - y2), "area": a})
         ctx.count(inp["family"].split(":")[0])
-        if ":" in inp["family"]:
+        if ":" in inp["family"] and not inp["family"].startswith("full_range"):
             ctx.count(inp["family"])
         if isinstance(a, float) and not isinstance(b, str):
             if a == 0.0:
@@ -280,7 +364,7 @@ def call_body(r1, r2, d):
 
 
 def exact_body(r1, r2, d):
-    return exact_area(d, 0.0, r1, 0.0, 0.0, r2)
+    return oracle(d, 0.0, r1, 0.0, 0.0, r2)
 
 
 def body_stream(ctx: Ctx, n: int) -> None:
@@ -315,7 +399,8 @@ def body_stream(ctx: Ctx, n: int) -> None:
         b = call_body(r2, r1, d)
         ctx.case("body", (inp["r1"], inp["r2"], inp["d"]), True, None)
         ctx.count("body:" + kind)
-        R2 = max(r1, r2) ** 2
+        R = max(r1, r2)
+        R2 = R * R if R < 1e154 else math.inf
         if isinstance(a, str) or isinstance(b, str):
             ctx.spec_fail("total", inp, {"raises": a if isinstance(a, str) else b}, 0)
         else:
@@ -338,6 +423,130 @@ def body_stream(ctx: Ctx, n: int) -> None:
                     ctx.drift += 1
                 else:
                     ctx.disagree("discd", inp, f2hex(a), m, 0)
+
+
+def _die_of(discs_areas):
+    """a real Die + Netlist (public API) holding one soft module per disc: area as given, centre set afterwards (any
+    coordinates, also negative)."""
+    from frame.netlist.netlist import Netlist
+    from frame.die.die import Die
+    from frame.geometry.geometry import Rectangle
+    Rectangle.undefine_epsilon()
+    text = "Modules: {\n" + ",\n".join(f"  M{i}: {{area: {a!r}}}" for i, (_, _, a) in enumerate(discs_areas)) + "\n}\n"
+    nl = Netlist(text)
+    for m, (x, y, _) in zip(nl.modules, discs_areas):
+        m.center = Point(x, y)
+    return Die("1000x1000", nl)
+
+
+def caller_stream(ctx: Ctx, n: int) -> None:
+    """the caller `total_intersection_area`: 2..6 discs, several of them tangent / nested / coincident; the value must be
+    non-negative and equal to twice the sum over unordered pairs of the EXACT lens area (60-digit oracle), each pair within
+    the accuracy the property allows; it is also compared with the composition of the two Lean models (drv_place `tia`)."""
+    from types import SimpleNamespace
+    rng = ctx.rng
+    tia = getattr(FR, "total_intersection_area", None)
+    if not callable(tia):
+        ctx.notes.append("total_intersection_area not found: caller stream skipped")
+        return
+    cases, reqs = [], []
+    for _ in range(n):
+        k = rng.randint(2, 6)
+        scale = 10.0 ** rng.uniform(-3, 3)
+        discs = []
+        for i in range(k):
+            r = scale * rng.choice([rng.uniform(0.05, 1.0), round(rng.uniform(0.1, 9.9), 1) / 10, rng.randint(1, 8) / 8])
+            if i > 0 and rng.random() < 0.6:     # placed relative to an earlier disc: tangent / nested / coincident / lens
+                x0, y0, r0 = discs[rng.randrange(i)]
+                kind = rng.choice(["ext", "int", "same", "lens", "nested"])
+                if kind == "ext":
+                    d = ulp_nudge(r + r0, rng.randint(-8, 8))
+                elif kind == "int":
+                    d = abs(ulp_nudge(abs(r - r0), rng.randint(-8, 8)))
+                elif kind == "same":
+                    d, r = rng.choice([0.0, r0 * 1e-9]), rng.choice([r, r0])
+                elif kind == "nested":
+                    d = abs(r - r0) * rng.random()
+                else:
+                    d = abs(r - r0) + (r + r0 - abs(r - r0)) * rng.random()
+                if rng.random() < 0.5:
+                    x, y = x0 + d, y0
+                else:
+                    th = rng.uniform(0, 2 * math.pi)
+                    x, y = x0 + d * math.cos(th), y0 + d * math.sin(th)
+            else:
+                x, y = scale * rng.uniform(-3, 3), scale * rng.uniform(-3, 3)
+            discs.append((x, y, r))
+        areas = [math.pi * r * r for (_, _, r) in discs]
+        cases.append((discs, areas))
+        t = [f2hex(8.0), f2hex(6.0), str(k)]
+        for (x, y, _), a in zip(discs, areas):
+            t += ["1", f2hex(x), f2hex(y), f2hex(a), "0"]
+        t.append("0")
+        reqs.append("F tia " + " ".join(t))
+    replies = ctx.model(reqs, exe="drv_place")
+    for ci, (discs, areas) in enumerate(cases):
+        mods = discs
+        inp = {"caller": True, "family": "caller", "discs": [[f2hex(x), f2hex(y), f2hex(a)] for (x, y, _), a in zip(discs, areas)]}
+        try:
+            die = _die_of([(x, y, a) for (x, y, _), a in zip(discs, areas)])
+        except Exception as e:  # noqa: BLE001   (netlist construction is not C17's code)
+            ctx.count("caller-build-rejected:" + type(e).__name__)
+            continue
+        try:
+            v = float(tia(die))
+        except Exception as e:  # noqa: BLE001
+            ctx.spec_fail("total", inp, {"op": "total_intersection_area", "raises": type(e).__name__}, len(mods))
+            continue
+        ctx.case("caller", tuple(map(tuple, inp["discs"])), True, None)
+        rad = [math.sqrt(a / math.pi) for a in areas]          # the radii the code derives from the areas
+        exact, allowed = mpf(0), mpf(0)
+        for i in range(len(mods)):
+            for j in range(i + 1, len(mods)):
+                exact += 2 * oracle(discs[i][0], discs[i][1], rad[i], discs[j][0], discs[j][1], rad[j])
+                allowed += 2 * mpf(1e-5) * mpf(max(rad[i], rad[j])) ** 2
+        if not (v >= 0 and math.isfinite(v)):
+            ctx.spec_fail("caller.nonneg", inp, {"total": v}, len(mods))
+        if abs(mpf(v) - exact) > allowed:
+            ctx.spec_fail("caller.twice-the-pairs", inp, {"total": v, "twice_sum_of_exact_lens_areas": mp.nstr(exact, 20),
+                                                          "allowed": mp.nstr(allowed, 8)}, len(mods))
+        if replies is not None:
+            m = replies[ci]
+            if m.startswith("err") or m == "bad-op":
+                ctx.disagree("caller", inp, f2hex(v), m, len(mods))
+            elif f2hex(v) != m and v != hex2f(m):
+                if abs(v - hex2f(m)) <= 1e-9 * max(1.0, abs(v)):
+                    ctx.drift += 1
+                else:
+                    ctx.disagree("caller", inp, f2hex(v), m, len(mods))
+
+
+def replay_caller(ctx: Ctx, inp: dict) -> None:
+    from types import SimpleNamespace
+    discs = [(hex2f(x), hex2f(y), hex2f(a)) for x, y, a in inp["discs"]]
+    mods = discs
+    try:
+        v = float(FR.total_intersection_area(_die_of(discs)))
+    except Exception as e:  # noqa: BLE001
+        ctx.spec_fail("total", inp, {"op": "total_intersection_area", "raises": type(e).__name__}, len(mods))
+        return
+    rad = [math.sqrt(a / math.pi) for (_, _, a) in discs]
+    exact, allowed = mpf(0), mpf(0)
+    for i in range(len(mods)):
+        for j in range(i + 1, len(mods)):
+            exact += 2 * oracle(discs[i][0], discs[i][1], rad[i], discs[j][0], discs[j][1], rad[j])
+            allowed += 2 * mpf(1e-5) * mpf(max(rad[i], rad[j])) ** 2
+    if not v >= 0:
+        ctx.spec_fail("caller.nonneg", inp, {"total": v}, len(mods))
+    if abs(mpf(v) - exact) > allowed:
+        ctx.spec_fail("caller.twice-the-pairs", inp, {"total": v, "twice_sum_of_exact_lens_areas": mp.nstr(exact, 20)}, len(mods))
+    t = [f2hex(8.0), f2hex(6.0), str(len(discs))]
+    for (x, y, a) in discs:
+        t += ["1", f2hex(x), f2hex(y), f2hex(a), "0"]
+    t.append("0")
+    rep = ctx.model(["F tia " + " ".join(t)], exe="drv_place")
+    if rep and rep[0] != f2hex(v) and not (not rep[0].startswith("err") and abs(hex2f(rep[0]) - v) <= 1e-9 * max(1.0, abs(v))):
+        ctx.disagree("caller", inp, f2hex(v), rep[0], len(mods))
 
 
 CORPUS = [  # the witnesses of findings/C17_acos_domain.py and exact tangencies
@@ -363,17 +572,19 @@ def run(ctx: Ctx) -> None:
                 "(2 of 13 draws; mostly at the origin so that the prescribed distance survives); very far apart centres "
                 "(distance 10^U(153.5, 307.9), where the squared distance is not a double); radii short decimals / dyadic / uniform at scales 1e-6…1e6 (half of the cases), 1e-160…1e150, "
                 "1e-160…1e-140 and 1e140…1e150, one disc possibly 1e-17…1e-1 of the other; centres axis-aligned or rotated, at the "
-                "origin or offset by up to 1000 radii; every pair is evaluated in both argument orders. A second stream drives the body with exact (r1, r2, d) triples through a stand-in for c1 - c2 (distances down to 5e-324 against radii up to 1e150, radius ratios 1e-17…1e-14, exact tangencies, the nearly-equal-radii family), which reaches the zero-divisor guard. Far-apart pairs are "
+                "origin or offset by up to 1000 radii; every pair is evaluated in both argument orders. A second stream drives the body with exact (r1, r2, d) triples through a stand-in for c1 - c2 (distances down to 5e-324 against radii up to 1e150, radius ratios 1e-17…1e-14, exact tangencies, the nearly-equal-radii family), which reaches the zero-divisor guard. A third stream (`caller`) evaluates total_intersection_area on 2..6 discs (tangent / nested / coincident / lens, scales 1e-3..1e3) against twice the sum over unordered pairs of the exact lens area and against the composed Lean models. In the thorough tier 20% (quick 2%) of the pairs take their radii from the WHOLE range of positive doubles (5e-324 … 1.7e308, the smaller one <= 1e150) with centre distances up to the largest double. The exact area is computed twice, by the acos form and by an independent atan2 form, which must agree to 1e-30·R². Far-apart pairs are "
                 "trivial; distinct = distinct (centres, radii)")
     cases = []
+    full_range = 0.02 if ctx.tier == "quick" else 0.2
     for _ in range(ctx.n(40000, 800000)):
-        cases.append(gen_case(ctx.rng))
+        cases.append(gen_case(ctx.rng, full_range))
     if not getattr(ctx, "seed_inputs", None) and ctx.budget <= 1.0:   # after the generated cases: replays show what the search found
         for r1, r2, d in CORPUS:
             cases.append({"family": "corpus", "k": 0, "x1": f2hex(0.0), "y1": f2hex(0.0), "r1": f2hex(r1),
                           "x2": f2hex(d), "y2": f2hex(0.0), "r2": f2hex(r2)})
     process(ctx, cases)
     body_stream(ctx, ctx.n(6000, 100000))
+    caller_stream(ctx, ctx.n(1500, 30000))
     ctx.assumptions.append("radii positive and finite, <= 1e150 (the disc area must be a double; min(r1, r2)**2 raises OverflowError "
                            "when the smaller radius exceeds ~1.34e154); centre coordinates: any finite doubles (centre distances up "
                            "to 8e307 are generated); NaN/inf inputs are outside the property")
@@ -384,6 +595,9 @@ def run(ctx: Ctx) -> None:
 
 def replay(ctx: Ctx, body: dict) -> None:
     inp = body["input"]
+    if inp.get("caller"):
+        replay_caller(ctx, inp)
+        return
     if inp.get("body"):
         r1, r2, d = hex2f(inp["r1"]), hex2f(inp["r2"]), hex2f(inp["d"])
         a = call_body(r1, r2, d)
